@@ -11,6 +11,7 @@ real code for a singular left block (known finding F11, `gaussian_reconstruct_co
 import OFV.Model.C11
 import OFV.Proofs.C11
 import OFV.Proofs.C11Num
+import OFV.Proofs.C11Real
 import OFV.Proofs.C11Layers
 import OFV.Proofs.C11Step
 import OFV.Proofs.C11Sweep
@@ -364,6 +365,34 @@ example : (givensElems (1/100000000) 0 ⟨0, 1⟩ true).toOption.map (fun G => (
     some (0, false) := by decide +kernel
 -- ... while the complex 'right' form with sine = 0 (covered by the statement for every phase) has G₁₁ = -0.0
 example : (assemble true false 1 0 1).negZero11 = true := by decide +kernel
+
+/-- the executable test `realExactB` (used by the driver's `c11.hypotheses`) decides the exact regime of the real / complex
+decision exactly -/
+theorem real_exact_test_decides (tol : Rat) (a b : GQ) : realExactB tol a b = true ↔ RealExact tol a b :=
+  realExactB_iff
+
+/-- **pairs with a real ratio** (`Im(a conj b) = 0`: real pairs, purely imaginary pairs, any common phase factor) need no
+hypothesis on the real / complex decision: the relative phase is exactly `±1`, the standard rotation is chosen, and the
+statement of `givens_matrix_elements_sound` holds with the two entry hypotheses alone.  (Before the repair 7be94873 the
+code chose the complex form for purely imaginary pairs and — the defect — the real form for tiny entries with a
+non-real ratio.) -/
+theorem givens_matrix_elements_sound_real_ratio (tol : Rat) (htol : 0 < tol) (a b : GQ) (right : Bool) (G : G2)
+    (hexa : small tol a = true → a = 0) (hexb : small tol b = true → b = 0)
+    (hab : a.im * b.re = a.re * b.im)
+    (h : givensElems tol a b right = .ok G) :
+    G.Unitary ∧ G.Zeroes right a b ∧
+    ∀ s c e, params G = .ok (s, c, e) → (rotationOf s c e).SameEntries G :=
+  givens_matrix_elements_sound tol htol a b right G hexa hexb (realExact_of_real_ratio htol hexa hexb hab) h
+
+-- non-vacuity: a purely imaginary pair
+example : (⟨0, 3/5⟩ : GQ).im * (⟨0, -4/5⟩ : GQ).re = (⟨0, 3/5⟩ : GQ).re * (⟨0, -4/5⟩ : GQ).im ∧
+    (givensElems (1/100000000) ⟨0, 3/5⟩ ⟨0, -4/5⟩ false).toOption.isSome = true := by decide +kernel
+
+/-- why the repaired test looks at the phase: the standard ("real") rotation form assembled with a non-real phase is not
+unitary — `phase = i`, `cos = 3/5`, `sin = 4/5` (what the code before 7be94873 produced for tiny entries whose imaginary
+parts were below the tolerance although their ratio was not real) -/
+theorem test_real_form_needs_real_phase : ¬ (assemble false true (3/5) (4/5) ⟨0, 1⟩).Unitary := by
+  unfold G2.Unitary; decide +kernel
 
 /-- signed zero matters: with `a = 0`, complex `b` and `which='right'` the Model yields `G₁₁ = -0.0` and
 `e^{iφ} = -1`; with `+0.0` (`e^{iφ} = 1`) the rebuilt rotation would differ from `G` in entry `[0,1]` -/
